@@ -18,7 +18,8 @@
 //!   e<b>      `Effect::new(body b)`         m<b>  `Memo::new(body b)`       o  `Owner::new()`
 //!   E<b>      `Effect::new_sync(body b)`    I<b>  `Effect::new_isomorphic(body b)`
 //!   w<b>.<h>  `Effect::watch(body b, handler body h, false)`   W<b>.<h>  the same with `immediate = true`
-//!             (handler bodies: only r/c/i/s/u tokens are executed; event H<e> when the handler starts)
+//!             (handler bodies: only r/c/i/s/u tokens are executed; event H<e> when the handler starts;
+//!             what the handler creates belongs to the effect's current run — F-C08-2, repaired)
 //!   v<b>      `RenderEffect::new(body b)` (handle retained; `dispose e <k>` drops it)
 //!   a<b>      `AsyncDerived::new(move || { body b; async move { sum } })` (future ready at once)
 //!
